@@ -49,6 +49,7 @@ fixed("C09", "eq refl link", "fad7c93", "ItemsEqual had no branch for Links: a L
 fixed("C09", "eq refl iris", "275bbc2", "an IRIs list was never equal to anything, itself included (ItemCollection.Equals refused the IRI-list type)", "random layer: IRIs{a,b}")
 fixed("C09", "eq refl list-with-idless-member", "0bd8bfb", "ItemCollection.Equals looked members up by IRI: a list with an id-less member was not equal to itself", "cell: Object.Tag list3:link")
 fixed("C09", "eq sens id-*", "d6489cd", "collection Equals ignored a failed conversion of the other item: collections of different kinds with different ids compared equal", "OrderedCollectionPage{id A} vs OrderedCollection{id B}")
+fixed("C01", "json-rt Source.MediaType str", "886738d", "a source's media type lost a quote at its end when read from JSON (GetAPSource handed the decoded string to MimeType.UnmarshalJSON, which trims quotes): text/plain; charset=\"utf-8\" came back without its closing quote; noticed by a sub-agent while it was seeding round 15, then shown by the new quoted-param shapes", "cells: Object.Source source-mime-quoted-param")
 # ---- C10
 fixed("C10", "recipients Block panic@removeFromCollection nil-entry", "1a20acb", "Recipients() of a Block whose lists hold a nil entry panicked", "pairs layer: Activity[Block] To=[nil]")
 fixed("C10", "recipients Block panic@(*Actor).GetID", "2fb4e33", "Recipients() of a Block whose lists hold a nil *Actor (or whose blocked object is a nil pointer) panicked: the entries were tested with == nil", "near layer: Activity[Block] To=[nilptr#3]")
